@@ -320,3 +320,14 @@ type HoldIList struct {
 	L IList
 	P *Small
 }
+
+// container types that contain themselves (the type map may hold such types)
+type RecList []RecList
+type RecMap map[string]RecMap
+type HoldRecList struct {
+	Kids RecList
+	N    int32
+}
+type HoldRecMap struct {
+	M RecMap
+}
